@@ -51,15 +51,25 @@ func Worker(handle func(in []byte) any) {
 }
 
 type ring struct {
-	mu  sync.Mutex
-	buf []byte
+	mu   sync.Mutex
+	head []byte // the first bytes written (a panic message comes first)
+	buf  []byte // the last bytes written
 }
 
 func (r *ring) Write(p []byte) (int, error) {
 	r.mu.Lock()
-	r.buf = append(r.buf, p...)
-	if len(r.buf) > 16384 {
-		r.buf = r.buf[len(r.buf)-16384:]
+	if len(r.head) < 6000 {
+		n := 6000 - len(r.head)
+		if n > len(p) {
+			n = len(p)
+		}
+		r.head = append(r.head, p[:n]...)
+		r.buf = append(r.buf, p[n:]...)
+	} else {
+		r.buf = append(r.buf, p...)
+	}
+	if len(r.buf) > 10000 {
+		r.buf = r.buf[len(r.buf)-10000:]
 	}
 	r.mu.Unlock()
 	return len(p), nil
@@ -68,7 +78,10 @@ func (r *ring) Write(p []byte) (int, error) {
 func (r *ring) String() string {
 	r.mu.Lock()
 	defer r.mu.Unlock()
-	return string(r.buf)
+	if len(r.buf) == 0 {
+		return string(r.head)
+	}
+	return string(r.head) + "\n[...]\n" + string(r.buf)
 }
 
 type proc struct {
